@@ -164,6 +164,17 @@ def run_converted_eq(w, kind):
             if a == b:
                 out += coherent(a, b, f"{a!r} == {b!r}",
                                 'C19:qty-hash:converter')
+        # a converted quantity (its source was hashed before) and a freshly
+        # built one with the same amount and unit
+        for src, dst in (('°C', 'K'), ('K', '°F'), ('°F', '°C')):
+            for x in (20, O.dec('D:-40'), F(1, 3)):
+                a = T(x, w.units[src])
+                hash(a)
+                b = a.convert(w.units[dst])
+                c = T(b.amount, w.units[dst])
+                if b == c:
+                    out += coherent(b, c, f"({a!r}).convert({dst}) == {c!r}",
+                                    'C19:qty-hash:same-unit:converted')
     else:
         from datetime import date
         from quantity.money import Money, MoneyConverter
@@ -174,6 +185,14 @@ def run_converted_eq(w, kind):
             if a == b:
                 out += coherent(a, b, f"{a!r} == {b!r} (converter active)",
                                 'C19:qty-hash:converter')
+            for x in (4, O.dec('D:2.20'), F(1, 3)):
+                a = Money(x, w.units['EUR'])
+                hash(a)
+                b = a.convert(w.units['USD'])
+                c = Money(b.amount, w.units['USD'])
+                if b == c:
+                    out += coherent(b, c, f"({a!r}).convert(USD) == {c!r}",
+                                    'C19:qty-hash:same-unit:converted')
     return out
 
 
